@@ -12,8 +12,11 @@ package nebula
 
 import (
 	"bytes"
+	"encoding/binary"
+	"errors"
 	"fmt"
 	"log/slog"
+	"math"
 	"net/netip"
 	"testing"
 	"time"
@@ -98,7 +101,41 @@ type c06Session struct {
 	ca, cb *ConnectionState
 }
 
-func c06Handshake(w *c06World, cipher noise.CipherFunc, i, r *c06Peer, vi, vr cert.Version, idxI, idxR uint32) (*c06Session, string) {
+// On-path rewrites of the unauthenticated nebula header of a handshake packet (the Machine only reads the subtype).
+type c06Rewrite struct {
+	name  string
+	stage int // 1 = first message, 2 = reply, 3 = both
+	f     func(pkt []byte)
+}
+
+func c06SetCounter(v uint64) func([]byte) {
+	return func(p []byte) { binary.BigEndian.PutUint64(p[8:16], v) }
+}
+
+func c06Rewrites() []c06Rewrite {
+	var out []c06Rewrite
+	for _, v := range []uint64{0, 1, 2, 3, 7, 100, 8191, 8192, 1 << 32, 1 << 40, math.MaxUint64} {
+		for _, st := range []int{1, 2} {
+			if (st == 1 && v == 1) || (st == 2 && v == 2) {
+				continue // identity
+			}
+			out = append(out, c06Rewrite{fmt.Sprintf("stage%d-counter=%d", st, v), st, c06SetCounter(v)})
+		}
+	}
+	out = append(out, c06Rewrite{"both-counters=100", 3, c06SetCounter(100)})
+	for _, st := range []int{1, 2} {
+		out = append(out,
+			c06Rewrite{fmt.Sprintf("stage%d-reserved=ffff", st), st, func(p []byte) { p[2], p[3] = 0xff, 0xff }},
+			c06Rewrite{fmt.Sprintf("stage%d-remote-index=0", st), st, func(p []byte) { binary.BigEndian.PutUint32(p[4:8], 0) }},
+			c06Rewrite{fmt.Sprintf("stage%d-remote-index=ffffffff", st), st, func(p []byte) { binary.BigEndian.PutUint32(p[4:8], math.MaxUint32) }},
+			c06Rewrite{fmt.Sprintf("stage%d-version-type-nibbles", st), st, func(p []byte) { p[0] ^= 0x25 }},
+		)
+	}
+	return out
+}
+
+// c06Handshake runs the Machines. s is nil when a Machine refused (why says which); s.ca/s.cb are built by the caller.
+func c06Handshake(w *c06World, cipher noise.CipherFunc, i, r *c06Peer, vi, vr cert.Version, idxI, idxR uint32, rw *c06Rewrite, rec map[string]any) (*c06Session, string) {
 	mi, err := handshake.NewMachine(vi, i.get(cipher), w.verifier, func() (uint32, error) { return idxI, nil }, true, header.HandshakeIXPSK0)
 	if err != nil {
 		return nil, "NewMachine initiator: " + err.Error()
@@ -111,22 +148,23 @@ func c06Handshake(w *c06World, cipher noise.CipherFunc, i, r *c06Peer, vi, vr ce
 	if err != nil {
 		return nil, "Initiate: " + err.Error()
 	}
+	if rw != nil && rw.stage&1 != 0 {
+		rw.f(m1)
+	}
+	rec["msg1_delivered"] = verifkit.Hex(m1)
 	m2, rb, err := mr.ProcessPacket(nil, m1)
 	if err != nil || rb == nil {
 		return nil, fmt.Sprintf("responder: %v", err)
 	}
+	if rw != nil && rw.stage&2 != 0 {
+		rw.f(m2)
+	}
+	rec["msg2_delivered"] = verifkit.Hex(m2)
 	_, ra, err := mi.ProcessPacket(nil, m2)
 	if err != nil || ra == nil {
 		return nil, fmt.Sprintf("initiator: %v", err)
 	}
-	s := &c06Session{ra: ra, rb: rb}
-	if s.ca, err = newConnectionStateFromResult(ra); err != nil {
-		return nil, "newConnectionStateFromResult(initiator): " + err.Error()
-	}
-	if s.cb, err = newConnectionStateFromResult(rb); err != nil {
-		return nil, "newConnectionStateFromResult(responder): " + err.Error()
-	}
-	return s, ""
+	return &c06Session{ra: ra, rb: rb}, ""
 }
 
 // c06Packet builds a data packet exactly like Interface.sendNoMetrics does.
@@ -144,7 +182,7 @@ func c06Packet(cs *ConnectionState, remoteIndex uint32, payload []byte) ([]byte,
 
 func TestVerifC06ConnState(t *testing.T) {
 	r := verifkit.NewReporter(t, "C06", "connstate",
-		"honest IX sessions (real handshake.Machine) for 2 curves x 2 ciphers x cert versions {v1,v2,mixed}; both results wrapped by newConnectionStateFromResult; data packets built like the send path in both directions; distinct = distinct (curve, cipher, versions, indexes, payload length) round trips judged")
+		"honest IX sessions (real handshake.Machine) for 2 curves x 2 ciphers x cert versions {v1,v2,mixed}; both results wrapped by newConnectionStateFromResult; data packets built like the send path in both directions; every session is followed by three sessions whose delivered handshake packets had unauthenticated header fields rewritten on path (counter of either message 0..2^64-1 incl. 3,7,100,8191,8192,2^32,2^40; reserved bits; remote index; version/type nibbles), and whenever both Machines complete the same oracle applies: equal message count, paired indexes, newConnectionStateFromResult succeeds on both sides, the first data packets of both directions carry counters right after the handshake and are accepted; distinct = distinct (curve, cipher, versions, indexes, payload length) round trips judged")
 	defer r.Done()
 	l := slog.New(slog.DiscardHandler)
 	per := verifkit.Scale(10, 3000)
@@ -158,6 +196,12 @@ func TestVerifC06ConnState(t *testing.T) {
 		fn   noise.CipherFunc
 	}
 	caseNo := 0
+	rws := c06Rewrites()
+	seenVariants := map[string]bool{}
+	defer func() {
+		r.Info("rewrites-after-which-both-sides-completed", len(seenVariants))
+		r.Info("rewrites-defined", len(rws))
+	}()
 	for _, c := range []cv{{"x25519", cert.Curve_CURVE25519, noise.DH25519}, {"p256", cert.Curve_P256, noiseutil.DHP256}} {
 		w := c06NewWorld(c.curve, c.dh, c.name)
 		for _, cph := range []ci{{"chachapoly", noise.CipherChaChaPoly}, {"aesgcm", noiseutil.CipherAESGCM}} {
@@ -173,101 +217,154 @@ func TestVerifC06ConnState(t *testing.T) {
 					if k%4 == 1 {
 						idxR = idxI
 					}
-					cfg := fmt.Sprintf("%s/%s v%d->v%d", c.name, cph.name, vers[0], vers[1])
-					rec := map[string]any{"cfg": cfg, "idxI": idxI, "idxR": idxR}
-					r.Pre("case %d %s", caseNo, cfg)
-					var s *c06Session
-					var why string
-					if r.Guard("C06/panic", func() any { return rec }, func() {
-						s, why = c06Handshake(w, cph.fn, w.peers[0], w.peers[1], vers[0], vers[1], idxI, idxR)
-					}) {
-						continue
-					}
-					r.Eval(1)
-					if s == nil {
-						r.Count("not-completed", 1)
-						if r.Counter("not-completed") <= 3 { // the rest is only counted
-							r.Inconclusive(cfg + ": honest session did not complete: " + why)
+					base := fmt.Sprintf("%s/%s v%d->v%d", c.name, cph.name, vers[0], vers[1])
+					// the plain session, then three sessions with on-path header rewrites (rotating through all of them)
+					for vi := 0; vi < 4; vi++ {
+						var rw *c06Rewrite
+						cfg := base
+						if vi > 0 {
+							rw = &rws[(3*caseNo+vi)%len(rws)]
+							cfg = base + " on-path rewrite " + rw.name
 						}
-						continue
-					}
-					r.Count("completed", 1)
-					// roles and certificates
-					if !s.ca.initiator || s.cb.initiator {
-						r.Violation("C06/connstate-role", cfg+": ConnectionState.initiator does not match the handshake role", rec)
-					}
-					if s.ca.peerCert != s.ra.RemoteCert || s.cb.peerCert != s.rb.RemoteCert ||
-						!bytes.Equal(s.ca.peerCert.Certificate.PublicKey(), w.peers[1].pub) || !bytes.Equal(s.cb.peerCert.Certificate.PublicKey(), w.peers[0].pub) {
-						r.Violation("C06/connstate-cert", cfg+": ConnectionState.peerCert is not the peer's certificate", rec)
-					}
-					ok := true
-					for j := 0; j < 4 && ok; j++ {
-						plen := []int{0, 1, 64, 1300}[j]
-						payload := make([]byte, plen)
-						for x := range payload {
-							payload[x] = byte(rng.Uint32())
+						rec := map[string]any{"cfg": cfg, "idxI": idxI, "idxR": idxR}
+						r.Pre("case %d %s", caseNo, cfg)
+						var s *c06Session
+						var why string
+						if r.Guard("C06/panic", func() any { return rec }, func() {
+							s, why = c06Handshake(w, cph.fn, w.peers[0], w.peers[1], vers[0], vers[1], idxI, idxR, rw, rec)
+						}) {
+							continue
 						}
-						for dir := 0; dir < 2 && ok; dir++ {
-							snd, rcv, ridx, who := s.ca, s.cb, s.ra.RemoteIndex, "initiator->responder"
-							if dir == 1 {
-								snd, rcv, ridx, who = s.cb, s.ca, s.rb.RemoteIndex, "responder->initiator"
+						r.Eval(1)
+						if s == nil {
+							if rw != nil {
+								r.Count("variant-rejected", 1) // a rewritten packet may be refused; not this property's business
+								continue
 							}
-							pkt, ctr, err := c06Packet(snd, ridx, payload)
-							if err != nil {
-								r.Violation("C06/connstate-seal", fmt.Sprintf("%s %s: cannot build packet: %v", cfg, who, err), rec)
-								ok = false
-								break
+							r.Count("not-completed", 1)
+							if r.Counter("not-completed") <= 3 { // the rest is only counted
+								r.Inconclusive(cfg + ": honest session did not complete: " + why)
 							}
-							keep := bytes.Clone(pkt)
-							nb := make([]byte, 12)
-							// must not open on the sending side or in another session
-							if _, err := snd.Decrypt(l, ctr, bytes.Clone(keep), nb); err == nil {
-								r.Violation("C06/key-not-exclusive", fmt.Sprintf("%s %s: sender's own ConnectionState opens its packet", cfg, who), rec)
-								ok = false
+							continue
+						}
+						if rw != nil {
+							r.Count("variant-completed", 1)
+							seenVariants[rw.name] = true
+						} else {
+							r.Count("completed", 1)
+						}
+						rec["initiator_message_index"], rec["responder_message_index"] = s.ra.MessageIndex, s.rb.MessageIndex
+						if s.ra.MessageIndex != s.rb.MessageIndex {
+							r.Violation("C06/message-count-mismatch", fmt.Sprintf("%s: both sides completed, initiator reports message count %d, responder %d", cfg, s.ra.MessageIndex, s.rb.MessageIndex), rec)
+							// keep going: the consequences for the data plane are judged below under their own keys
+						}
+						if s.ra.RemoteIndex != s.rb.LocalIndex || s.rb.RemoteIndex != s.ra.LocalIndex || s.ra.LocalIndex != idxI || s.rb.LocalIndex != idxR {
+							r.Violation("C06/index-mismatch", fmt.Sprintf("%s: indexes I(local %d remote %d) R(local %d remote %d), allocated %d/%d", cfg, s.ra.LocalIndex, s.ra.RemoteIndex, s.rb.LocalIndex, s.rb.RemoteIndex, idxI, idxR), rec)
+							continue
+						}
+						var e1, e2 error
+						s.ca, e1 = newConnectionStateFromResult(s.ra)
+						s.cb, e2 = newConnectionStateFromResult(s.rb)
+						if e1 != nil || e2 != nil {
+							r.Violation("C06/connstate-rejects-result", fmt.Sprintf("%s: both Machines completed but newConnectionStateFromResult failed: initiator %v, responder %v", cfg, e1, e2), rec)
+							continue
+						}
+						// roles and certificates
+						if !s.ca.initiator || s.cb.initiator {
+							r.Violation("C06/connstate-role", cfg+": ConnectionState.initiator does not match the handshake role", rec)
+						}
+						if s.ca.peerCert != s.ra.RemoteCert || s.cb.peerCert != s.rb.RemoteCert ||
+							!bytes.Equal(s.ca.peerCert.Certificate.PublicKey(), w.peers[1].pub) || !bytes.Equal(s.cb.peerCert.Certificate.PublicKey(), w.peers[0].pub) {
+							r.Violation("C06/connstate-cert", cfg+": ConnectionState.peerCert is not the peer's certificate", rec)
+						}
+						ok := true
+						for j := 0; j < 4 && ok; j++ {
+							plen := []int{0, 1, 64, 1300}[j]
+							payload := make([]byte, plen)
+							for x := range payload {
+								payload[x] = byte(rng.Uint32())
 							}
-							if prev != nil {
-								if _, err := prev.ca.Decrypt(l, ctr+1000, c06Renumber(keep, ctr+1000), nb); err == nil {
-									r.Violation("C06/key-not-exclusive", cfg+": another session opens the packet", rec)
+							for dir := 0; dir < 2 && ok; dir++ {
+								snd, rcv, ridx, who := s.ca, s.cb, s.ra.RemoteIndex, "initiator->responder"
+								if dir == 1 {
+									snd, rcv, ridx, who = s.cb, s.ca, s.rb.RemoteIndex, "responder->initiator"
+								}
+								pkt, ctr, err := c06Packet(snd, ridx, payload)
+								if err != nil {
+									r.Violation("C06/connstate-seal", fmt.Sprintf("%s %s: cannot build packet: %v", cfg, who, err), rec)
+									ok = false
+									break
+								}
+								// data counters continue right after the handshake's message count (which both sides agree on)
+								sndRes := s.ra
+								if dir == 1 {
+									sndRes = s.rb
+								}
+								if want := sndRes.MessageIndex + 1 + uint64(j); ctr != want {
+									r.Violation("C06/connstate-counter-start", fmt.Sprintf("%s %s: data packet #%d carries counter %d, the sender's handshake message count is %d", cfg, who, j+1, ctr, sndRes.MessageIndex), rec)
+									ok = false
+									break
+								}
+								keep := bytes.Clone(pkt)
+								nb := make([]byte, 12)
+								// must not open on the sending side or in another session
+								if _, err := snd.Decrypt(l, ctr, bytes.Clone(keep), nb); err == nil {
+									r.Violation("C06/key-not-exclusive", fmt.Sprintf("%s %s: sender's own ConnectionState opens its packet", cfg, who), rec)
 									ok = false
 								}
-								o1, e1 := prev.ca.dKey.DecryptDanger(nil, keep[:header.Len], keep[header.Len:], ctr, nb)
-								o2, e2 := prev.cb.dKey.DecryptDanger(nil, keep[:header.Len], keep[header.Len:], ctr, nb)
-								if e1 == nil || e2 == nil {
-									_, _ = o1, o2
-									r.Violation("C06/key-not-exclusive", cfg+": another session's receiving key opens the packet", rec)
+								if prev != nil {
+									if _, err := prev.ca.Decrypt(l, ctr+1000, c06Renumber(keep, ctr+1000), nb); err == nil {
+										r.Violation("C06/key-not-exclusive", cfg+": another session opens the packet", rec)
+										ok = false
+									}
+									o1, e1 := prev.ca.dKey.DecryptDanger(nil, keep[:header.Len], keep[header.Len:], ctr, nb)
+									o2, e2 := prev.cb.dKey.DecryptDanger(nil, keep[:header.Len], keep[header.Len:], ctr, nb)
+									if e1 == nil || e2 == nil {
+										_, _ = o1, o2
+										r.Violation("C06/key-not-exclusive", cfg+": another session's receiving key opens the packet", rec)
+										ok = false
+									}
+									r.Count("cross-session-probes", 3)
+								}
+								// the ConnectionState's sending key is the handshake result's EKey: the packet opens under the
+								// peer result's DKey and not under the peer result's EKey
+								peerRes := s.rb
+								if dir == 1 {
+									peerRes = s.ra
+								}
+								if o, err := noiseutil.NewCipherState(peerRes.DKey, peerRes.Cipher).DecryptDanger(nil, keep[:header.Len], keep[header.Len:], ctr, nb); err != nil || !bytes.Equal(o, payload) {
+									r.Violation("C06/connstate-key-swap", fmt.Sprintf("%s %s: packet sealed by ConnectionState.eKey does not open under the peer's Result.DKey", cfg, who), rec)
 									ok = false
 								}
-								r.Count("cross-session-probes", 3)
+								if _, err := noiseutil.NewCipherState(peerRes.EKey, peerRes.Cipher).DecryptDanger(nil, keep[:header.Len], keep[header.Len:], ctr, nb); err == nil {
+									r.Violation("C06/connstate-key-swap", fmt.Sprintf("%s %s: packet sealed by ConnectionState.eKey opens under the peer's Result.EKey", cfg, who), rec)
+									ok = false
+								}
+								out, err := rcv.Decrypt(l, ctr, pkt, nb)
+								if errors.Is(err, ErrAlreadySeen) {
+									r.Violation("C06/connstate-first-packets-already-seen", fmt.Sprintf("%s %s: the peer refuses data packet #%d (counter %d) as already seen; message counts I=%d R=%d", cfg, who, j+1, ctr, s.ra.MessageIndex, s.rb.MessageIndex), rec)
+									ok = false
+									break
+								}
+								if err != nil || !bytes.Equal(out, payload) {
+									r.Violation("C06/key-mismatch", fmt.Sprintf("%s %s: peer's ConnectionState.Decrypt failed (%v) or returned other bytes; counter %d len %d", cfg, who, err, ctr, plen), rec)
+									ok = false
+									break
+								}
+								r.Distinct(fmt.Sprintf("%s|%d|%d|%d|%d", cfg, idxI, idxR, plen, dir))
+								r.Count("roundtrips", 1)
 							}
-							// the ConnectionState's sending key is the handshake result's EKey: the packet opens under the
-							// peer result's DKey and not under the peer result's EKey
-							peerRes := s.rb
-							if dir == 1 {
-								peerRes = s.ra
-							}
-							if o, err := noiseutil.NewCipherState(peerRes.DKey, peerRes.Cipher).DecryptDanger(nil, keep[:header.Len], keep[header.Len:], ctr, nb); err != nil || !bytes.Equal(o, payload) {
-								r.Violation("C06/connstate-key-swap", fmt.Sprintf("%s %s: packet sealed by ConnectionState.eKey does not open under the peer's Result.DKey", cfg, who), rec)
-								ok = false
-							}
-							if _, err := noiseutil.NewCipherState(peerRes.EKey, peerRes.Cipher).DecryptDanger(nil, keep[:header.Len], keep[header.Len:], ctr, nb); err == nil {
-								r.Violation("C06/connstate-key-swap", fmt.Sprintf("%s %s: packet sealed by ConnectionState.eKey opens under the peer's Result.EKey", cfg, who), rec)
-								ok = false
-							}
-							out, err := rcv.Decrypt(l, ctr, pkt, nb)
-							if err != nil || !bytes.Equal(out, payload) {
-								r.Violation("C06/key-mismatch", fmt.Sprintf("%s %s: peer's ConnectionState.Decrypt failed (%v) or returned other bytes; counter %d len %d", cfg, who, err, ctr, plen), rec)
-								ok = false
-								break
-							}
-							r.Distinct(fmt.Sprintf("%s|%d|%d|%d|%d", cfg, idxI, idxR, plen, dir))
-							r.Count("roundtrips", 1)
 						}
+						if rw == nil {
+							r.DistinctClass(fmt.Sprintf("%s completed; initiator saw v%d, responder saw v%d", cfg, s.ra.RemoteCert.Certificate.Version(), s.rb.RemoteCert.Certificate.Version()))
+							if k == 0 {
+								r.Sample(map[string]any{"cfg": cfg, "idxI": idxI, "idxR": idxR, "message_index": s.ra.MessageIndex})
+							}
+						} else if ok {
+							r.Count("variant-agreed", 1)
+						}
+						prev = s
 					}
-					r.DistinctClass(fmt.Sprintf("%s completed; initiator saw v%d, responder saw v%d", cfg, s.ra.RemoteCert.Certificate.Version(), s.rb.RemoteCert.Certificate.Version()))
-					if k == 0 {
-						r.Sample(map[string]any{"cfg": cfg, "idxI": idxI, "idxR": idxR, "message_index": s.ra.MessageIndex})
-					}
-					prev = s
 				}
 			}
 		}
